@@ -207,4 +207,31 @@ theorem c01w_ckks_sk_hypotheses_satisfiable (saveSeed : Bool) :
   exact ckks_encrypt_decrypt_sk b1 b2 b3 b5 (by rw [b9]; decide) (by rw [b6]; rfl) (by decide +kernel) (by rw [b6]; rfl) saveSeed
     (by decide +kernel)
 
+/-- NON-VACUITY of `ckks_encrypt_decrypt_pk` (level without a previous level) -/
+theorem c01w_ckks_pk_hypotheses_satisfiable :
+    ∃ (ν : Nat → Int) (ct : Ct) (dec : RnsPoly), (∀ c, c < (c01w_l .ckks 0).n → (ν c).natAbs ≤ 21 * (2 * (c01w_l .ckks 0).n + 1)) ∧
+      ckksEncrypt (c01w_l .ckks 0)
+        (.asym none #[c01w_pk0 (c01w_l .ckks 0), c01w_a.extract 0 (c01w_l .ckks 0).size]
+          (rnsOfInt (c01w_l .ckks 0) c01w_u) #[rnsOfInt (c01w_l .ckks 0) c01w_e0, rnsOfInt (c01w_l .ckks 0) c01w_e1])
+        c01w_ckksPlain = .ok ct ∧
+      ckksDecrypt (c01w_l .ckks 0) c01w_sk ct = .ok dec ∧ RnsCanon (c01w_l .ckks 0) dec ∧
+      ∀ i, i < (c01w_l .ckks 0).size → ∀ c, c < (c01w_l .ckks 0).n →
+        (((intt ((c01w_l .ckks 0).tbl i) (dec.getD i #[])).getD c 0 : Nat) : Int) ≡
+          (((intt ((c01w_l .ckks 0).tbl i) (c01w_ckksPlain.getD i #[])).getD c 0 : Nat) : Int) + ν c
+          [ZMOD (((c01w_l .ckks 0).q i).value : Int)] := by
+  obtain ⟨b1, b2, b3, b4, b5, b6, b7, b8, b9⟩ := mkLevel_ok c01w_l_ok_ckks
+  have hrel := c01w_pkRel b1 (by rw [b9]; decide) (by rw [b6]; rfl) (by rw [b6]; rfl) (by decide +kernel)
+  exact ckks_encrypt_decrypt_pk b1 b2 b3 b5 (by rw [b9]; decide) (by rw [b6]; rfl)
+    (by rw [b6]; decide) hrel (c01w_epk_bound _) (by rw [b6]; rfl) (by rw [b6]; rfl) (by rw [b6]; rfl)
+    (by rw [b6]; decide) (by rw [b6]; decide) (by rw [b6]; decide) (by decide +kernel)
+
+/-- NON-VACUITY of `LevelPrefix` / `PkRel.lower`: the relation of the key generated at the previous level {97, 113, 193} holds at the
+    level {97, 113} for the same key polynomials (what `encrypt_zero_at` uses at a lower level) -/
+theorem c01w_pkRel_lower :
+    PkRel (c01w_l .bfv 17) c01w_sk (fun c => (encTT (c01w_pl .bfv 17) : Int) * (fun p => c01w_epk.getD p 0) c)
+      (c01w_pk0 (c01w_pl .bfv 17)) (c01w_a.extract 0 (c01w_pl .bfv 17).size) := by
+  obtain ⟨a1, a2, a3, a4, a5, a6, a7, a8, a9⟩ := mkLevel_ok c01w_pl_ok_bfv
+  exact PkRel.lower c01w_prev_bfv.levelPrefix
+    (c01w_pkRel a1 (by rw [a9]; decide) (by rw [a6]; rfl) (by rw [a6]; rfl) (by decide +kernel))
+
 end HC
